@@ -33,6 +33,16 @@ type Level struct {
 	// NoAsk (auth levels): the device grants the level without asking for the secret (none set,
 	// or the user is already authorised): then the secret must not be sent at all.
 	NoAsk bool `json:"no_ask,omitempty"`
+	// Ask (auth levels): which spelling the device uses when it asks for the secret (the level's
+	// escalate-prompt pattern is the matching one; only spelling 0 is also matched by the
+	// channel's default password pattern)
+	Ask int `json:"ask,omitempty"`
+}
+
+var askSpellings = [][2]string{
+	{"Password: ", `(?im)^[pP]assword:\s?$`},
+	{"Enable secret: ", `(?im)^enable secret:\s?$`},
+	{"[sudo] password for admin: ", `(?im)^\[sudo\] password for \w+:\s?$`},
 }
 
 // Rule is one operation of the history.
@@ -45,6 +55,8 @@ type Rule struct {
 	// config batch ending with "end"), so the operation leaves the device at the parent level
 	// although the level it acquired was the configuration level.
 	Leave bool `json:"leave,omitempty"`
+	// Via (unknown-level): the operation that is given a level that does not exist
+	Via string `json:"via,omitempty"`
 }
 
 // Case is a tree plus a history.
@@ -91,7 +103,7 @@ func (c *Case) privLevels() map[string]*network.PrivilegeLevel {
 		}
 
 		if l.Auth {
-			pl.EscalatePrompt = `(?im)^[pP]assword:\s?$`
+			pl.EscalatePrompt = askSpellings[l.Ask%len(askSpellings)][1]
 		}
 
 		h := regexp.QuoteMeta(c.Host)
@@ -179,6 +191,10 @@ func genTree(t *rapid.T, n int) []Level {
 
 			lv[i].Auth = rapid.IntRange(0, 3).Draw(t, "auth") == 0
 			lv[i].NoAsk = lv[i].Auth && rapid.IntRange(0, 3).Draw(t, "noAsk") == 0
+
+			if lv[i].Auth {
+				lv[i].Ask = rapid.IntRange(0, len(askSpellings)-1).Draw(t, "ask")
+			}
 		}
 	}
 
@@ -219,14 +235,18 @@ func gen(t *rapid.T) Case {
 	n := rapid.IntRange(1, 6).Draw(t, "nRules")
 	for i := 0; i < n; i++ {
 		r := Rule{K: rapid.SampledFrom([]string{"acquire", "acquire", "acquire", "acquire-unknown", "cmd", "cmds", "config", "configs", "interactive", "stall-acquire", "cmd",
-			"cmds-file", "configs-file", "config-unknown-level", "reopen"}).Draw(t, "rule")}
+			"cmds-file", "configs-file", "config-unknown-level", "reopen", "unknown-level"}).Draw(t, "rule")}
 		r.Target = rapid.IntRange(0, len(c.Levels)-1).Draw(t, "target")
 
 		switch r.K {
 		case "cmd", "config":
 			r.Lines = genLines(t, "line")[:1]
-		case "cmds", "configs", "interactive", "cmds-file", "configs-file", "config-unknown-level":
+		case "cmds", "configs", "interactive", "cmds-file", "configs-file", "config-unknown-level", "unknown-level":
 			r.Lines = genLines(t, "lines")
+		}
+
+		if r.K == "unknown-level" {
+			r.Via = rapid.SampledFrom([]string{"config", "configs", "configs-file", "interactive"}).Draw(t, "via")
 		}
 
 		if r.K == "config" || r.K == "configs" || r.K == "interactive" || r.K == "configs-file" {
@@ -364,7 +384,7 @@ func run(c Case) ev.Verdict {
 				if l.Auth && !l.NoAsk {
 					pw = i
 
-					return "Password: ", true
+					return askSpellings[l.Ask%len(askSpellings)][0], true
 				}
 
 				mode = i
@@ -510,6 +530,26 @@ func run(c Case) ev.Verdict {
 		case "config-unknown-level":
 			wantErr = util.ErrPrivilegeError
 			_, opErr = d.SendConfigs(r.Lines, opoptions.WithPrivilegeLevel("no-such-level"))
+		case "unknown-level":
+			// an explicit level that is not a level, through every operation that takes one
+			wantErr = util.ErrPrivilegeError
+			noSuch := opoptions.WithPrivilegeLevel("no-such-level")
+
+			switch r.Via {
+			case "config":
+				_, opErr = d.SendConfig(strings.Join(r.Lines, "\n"), noSuch)
+			case "configs-file":
+				_, opErr = d.SendConfigsFromFile(linesFile(r.Lines), noSuch)
+			case "interactive":
+				var events []*channel.SendInteractiveEvent
+				for _, l := range r.Lines {
+					events = append(events, &channel.SendInteractiveEvent{ChannelInput: l})
+				}
+
+				_, opErr = d.SendInteractive(events, noSuch)
+			default:
+				_, opErr = d.SendConfigs(r.Lines, noSuch)
+			}
 		case "configs-file":
 			at := configIdx
 			if r.Explicit {
